@@ -122,7 +122,7 @@ def simd_jobs(tier):
     fill_us = "sse2_fill.0:2,sse2_fill.1:4,sse2_fill.2:1,sse2_fill.3:4,sse2_fill.4:3"
     blt_us = "sse2_blt.0:2,sse2_blt.1:4,sse2_blt.2:2,sse2_blt.3:4,sse2_blt.4:4,sse2_blt.5:3"
     bound = "rectangle width*bpp <= 64 bytes, height <= 2, stride fixed at 20 words (80 bytes), every x (= every alignment phase mod 16)"
-    fills = (8, 16, 32) if tier != "quick" else (32,)
+    fills = (8, 16, 32) if tier != "quick" else (16,)   # 16 bpp: filler replication + masking is the bug-prone part (seed C19-2)
     for bpp in fills:
         js.append(Job("simd.sse2_fill.bpp%d" % bpp, "C19/simd.c", defines={"VC_FILL": None, "VC_BPP": bpp},
                       cbmc_flags=["--unwindset", fill_us], unwind=1, kind="bounded", bound=bound, extra_sources=RL,
